@@ -108,7 +108,7 @@ def cfg_with_input(ci, ii):
 
 
 def plan(tier):
-    n_units = 16 if tier == 'quick' else len(POOL)
+    n_units = len(POOL) // 2 if tier == 'quick' else len(POOL)       # quick: every configuration is owned (with its twin) by one unit
     seed_rot = 2 * (int(os.environ.get('VERIF_SEED', '1') or '1') % (len(POOL) // 2))   # twins stay paired
     units = []
     for u in range(n_units):
@@ -117,7 +117,7 @@ def plan(tier):
             c1 = (2 * u + seed_rot) % len(POOL)
             c2 = (c1 + 1) % len(POOL)
             own = [(c1, u % 3), (c1, (u + 1) % 3), (c2, u % 3), (c2, (u + 1) % 3), (c1, 3)]
-            units.append({'n': 8, 'own': own})
+            units.append({'n': 6, 'own': own})
         else:
             c1 = u % len(POOL)
             c2, c3 = (c1 + 1) % len(POOL), (u * 7 + 3) % len(POOL)
